@@ -103,7 +103,8 @@ AttrModel(c) ==    \* c = [t1, t2, r1, r2, r3, c1, c2] indices into AttrPool
             \o (IF c.c1 # c.c2 \/ c.r1 # c.r3 THEN <<>> ELSE <<
                 \* (in a slice of the universe only: it is expensive to print) a type with 14 relations, two of them contributed by an extension (sorting more than 12 elements takes another code path in Go)
                 At([name |-> "big", module |-> "", file |-> "",
-                    rels |-> [i \in 1..14 |-> LET nm == <<"owner", "guest", "commenter", "viewer", "editor", "approver", "auditor", "manager", "reader", "writer", "admin", "member", "notary", "counsel">>[i]
+                    rels |-> [i \in 1..18 |-> LET nm == <<"owner", "guest", "commenter", "viewer", "editor", "approver", "auditor", "manager", "reader", "writer", "admin", "member", "notary", "counsel",
+                                                          "owner2", "owner10", "Owner", "owner_">>[i]    \* (names that a sort by anything but the plain name misplaces)
                                               IN At(PlainRel(nm, [k |-> "this"], <<Ty("alpha")>>), IF i > 12 THEN c.r2 ELSE IF i % 2 = 0 THEN c.r1 ELSE c.t2)]], c.t1) >>),
    conds |-> << At([name |-> "k2", module |-> "", file |-> "", params |-> <<[name |-> "b", ty |-> "TYPE_NAME_STRING", elem |-> ""], [name |-> "a", ty |-> "TYPE_NAME_TIMESTAMP", elem |-> ""], [name |-> "userId", ty |-> "TYPE_NAME_STRING", elem |-> ""],
                                                                               [name |-> "Zone", ty |-> "TYPE_NAME_INT", elem |-> ""], [name |-> "userid", ty |-> "TYPE_NAME_BOOL", elem |-> ""], [name |-> "lim", ty |-> "TYPE_NAME_INT", elem |-> ""], [name |-> "lim2", ty |-> "TYPE_NAME_INT", elem |-> ""], [name |-> "lim10", ty |-> "TYPE_NAME_UINT", elem |-> ""], [name |-> "user_ip", ty |-> "TYPE_NAME_IPADDRESS", elem |-> ""]>>,
